@@ -270,7 +270,7 @@ func (its *document) PutToObject(key string, value interface{}) (Document, error
 	if err := its.assertLocalOp("PutToObject", TypeJSONObject, false); err != nil {
 		return nil, err
 	}
-	if key == "" || value == nil {
+	if key == "" || types.IsNull(value) {
 		return nil, errors.DatatypeIllegalParameters.New(its.L(), "neither empty key nor null value is not allowed")
 	}
 	op := operations.NewDocPutInObjOperation(its.snapshot().getCreateTime(), key, types.ConvertToJSONSupportedValue(value))
@@ -446,7 +446,7 @@ func (its *document) toDocument(child jsonType) Document {
 }
 func validateNoNullValue(its *document, values []interface{}) errors.OrdaError {
 	for _, v := range values {
-		if v == nil {
+		if types.IsNull(v) {
 			return errors.DatatypeIllegalParameters.New(its.L(), "null value cannot be inserted")
 		}
 	}
